@@ -1348,6 +1348,10 @@ struct ssl
      /* Client's enabled cipher suites from the API */
     psCipher16_t *tls13ClientCipherSuites;
     uint8_t tls13ClientCipherSuitesLen;
+    /* Server: the cipher_suites vector of the ClientHello, valid only while
+       that message is being parsed (the PSK selection looks at it) */
+    const unsigned char *tls13PeerCipherSuites;
+    psSize_t tls13PeerCipherSuitesLen;
     psBool_t tls13CiphersuitesEnabledClient;
     psBool_t tls13CHContainsSha256Suite;
     psBool_t tls13CHContainsSha384Suite;
